@@ -69,6 +69,7 @@ type Case struct {
 	Refs    []int64 `json:"refs,omitempty"`
 	KRange  int64   `json:"krange,omitempty"`
 	KOffset int64   `json:"koffset,omitempty"`
+	KStep   int64   `json:"kstep,omitempty"`
 	// kernel:table cases
 	KTable *TableCase `json:"ktable,omitempty"`
 	// kernel:acc cases
